@@ -69,7 +69,7 @@ Definition fifo_law (s s' : state) (o : list output) (new : list nat) : Prop :=
 Definition wire_law (s s' : state) (o : list output) : Prop :=
   wire_ids o = [] \/
   (exists r tx d, wire_ids o = [rq_id r] /\ ph s' = PInFlight r tx d /\ d = now s + rq_timeout r /\
-                  (ph s = PIdle \/ exists u, ph s = PWriting r tx u)).
+                  (ph s = PIdle \/ exists u, ph s = PWriting r tx u) /\ completed o = []).
 
 Definition laws (s s' : state) (o : list output) (new : list nat) : Prop :=
   tx_law s s' o /\ fifo_law s s' o new /\ wire_law s s' o.
@@ -289,6 +289,117 @@ Proof.
     apply laws_nochange; reflexivity.
 Qed.
 
+
+(* a request is in flight after a step only if it was already, or if this step wrote it *)
+Definition enters (s s' : state) (o : list output) : Prop :=
+  forall r tx d, ph s' = PInFlight r tx d -> ph s = PInFlight r tx d \/ wire_ids o = [rq_id r].
+
+Lemma enters_same s s' o : ph s' = ph s -> enters s s' o.
+Proof. intros Hp r tx d H. left. rewrite <- Hp. exact H. Qed.
+Lemma enters_nil s s' o : inflight (ph s') = [] -> enters s s' o.
+Proof. intros Hi r tx d H. rewrite H in Hi. discriminate. Qed.
+
+Lemma transmit_enters s r : let '(s', o) := transmit s r in enters s s' o.
+Proof.
+  unfold transmit. destruct (txid_next (txid s)) as [v' tx]. destruct (rq_kind r).
+  - destruct (wfail (set_txid s v')).
+    + pose proof (finish_summary (set_wctl (set_txid s v') false 0) r (RErr ReIo)) as H. destruct (finish _ r (RErr ReIo)) as [s' o].
+      apply enters_nil; exact (proj1 H).
+    + destruct (wdelay (set_txid s v') =? 0).
+      * intros r0 tx0 d0 H. cbn in H. inversion H; subst. right. reflexivity.
+      * intros r0 tx0 d0 H. discriminate H.
+  - pose proof (finish_summary (set_txid s v') r (RErr ReBadRequest)) as H. destruct (finish _ r (RErr ReBadRequest)) as [s' o].
+    apply enters_nil; exact (proj1 H).
+Qed.
+
+Lemma take_enters s0 s c : ph s0 = ph s -> listens (ph s) = true -> let '(s', o) := take s0 c in enters s s' o.
+Proof.
+  intros Hp Hl. unfold take. rewrite Hp.
+  assert (Hterm : forall x pre, silent pre -> let '(s', o) := terminate x pre in enters s s' o).
+  { intros x pre Hs. pose proof (terminate_summary x pre Hs) as H. destruct (terminate x pre) as [s' o]. apply enters_nil; exact (proj1 H). }
+  assert (Hloop : forall x, let '(s', o) := loop_top x in enters s s' o).
+  { intros x. pose proof (loop_top_summary x) as H. destruct (loop_top x) as [s' o]. apply enters_nil; exact (proj1 H). }
+  assert (Hends : forall x se, inflight (ph x) = [] -> let '(s', o) := end_session x se in enters s s' o).
+  { intros x se Hi. pose proof (end_session_summary x se Hi) as H. destruct (end_session x se) as [s' o]. apply enters_nil; exact (proj1 H). }
+  assert (Hno : forall x o, listens (ph x) = true -> enters s x o).
+  { intros x o Hx r tx d H. rewrite H in Hx. discriminate. }
+  destruct (ph s) eqn:Eph; try discriminate.
+  - destruct c as [r| | |l|]; cbn [change_setting].
+    + apply Hno. rewrite Hp. reflexivity.
+    + cbn [enabled set_enabled]. apply Hno. reflexivity.
+    + cbn [enabled set_enabled]. apply Hno. cbn. rewrite Hp. reflexivity.
+    + cbn [enabled set_decode]. destruct (enabled s0); apply Hno; cbn; rewrite ?Hp; reflexivity.
+    + apply (Hterm s0 []). split; reflexivity.
+  - destruct c as [r| | |l|]; cbn [change_setting].
+    + apply Hno. rewrite Hp. reflexivity.
+    + cbn [enabled set_enabled]. apply Hno. cbn. rewrite Hp. reflexivity.
+    + cbn [enabled set_enabled]. apply Hloop.
+    + cbn [enabled set_decode]. destruct (enabled s0); [apply Hno; cbn; rewrite Hp; reflexivity|apply Hloop].
+    + apply (Hterm s0 []). split; reflexivity.
+  - destruct c as [r| | |l|]; cbn [change_setting].
+    + pose proof (transmit_enters s0 r) as H. destruct (transmit s0 r) as [s' o]. intros r0 tx d E. destruct (H r0 tx d E) as [H1|H1]; [|right; exact H1].
+      rewrite Hp in H1. discriminate.
+    + cbn [enabled set_enabled]. apply Hno. cbn. rewrite Hp. reflexivity.
+    + cbn [enabled set_enabled]. apply Hends. cbn. rewrite Hp. reflexivity.
+    + cbn [enabled set_decode]. destruct (enabled s0); [apply Hno; cbn; rewrite Hp; reflexivity|apply Hends; cbn; rewrite Hp; reflexivity].
+    + apply Hends. rewrite Hp. reflexivity.
+  - destruct c as [r| | |l|]; cbn [change_setting].
+    + apply Hno. rewrite Hp. reflexivity.
+    + cbn [enabled set_enabled]. apply Hno. cbn. rewrite Hp. reflexivity.
+    + cbn [enabled set_enabled]. apply Hloop.
+    + cbn [enabled set_decode]. destruct (enabled s0); [apply Hno; cbn; rewrite Hp; reflexivity|apply Hloop].
+    + apply (Hterm s0 []). split; reflexivity.
+Qed.
+
+Theorem step_enters s e : let '(s', o) := step cfg s e in enters s s' o.
+Proof.
+  destruct e as [c st| | |ok|tx k|tx k| | | | | |dt| |dt|]; cbn [step]; try (apply enters_same; reflexivity).
+  - destruct (Nat.eqb (handles s) 0); [apply enters_same; reflexivity|].
+    destruct (ph s) eqn:Eph; try (apply enters_same; reflexivity);
+    (destruct (_ && _); [apply enters_same; reflexivity|]; destruct st; apply enters_same; reflexivity).
+  - destruct (listens (ph s)) eqn:El; [|apply enters_same; reflexivity].
+    destruct (queue s) as [|c q].
+    + destruct (closed s); [|apply enters_same; reflexivity].
+      destruct (ph s) eqn:Eph; try discriminate;
+        try (pose proof (terminate_summary s [] (conj eq_refl eq_refl)) as H; destruct (terminate s []) as [s' o]; apply enters_nil; exact (proj1 H)).
+    + apply take_enters; [reflexivity|exact El].
+  - destruct (ph s) eqn:Eph; try (apply enters_same; reflexivity). destruct ok.
+    + destruct (retry_call s Reset) as [[s1 d]|].
+      * intros r tx d0 H. discriminate H.
+      * pose proof (crash_summary s) as H. destruct (crash s) as [s' o]. apply enters_nil; exact (proj1 H).
+    + pose proof (wait_for_summary s LWaitFailed Fail []) as H. destruct (wait_for s LWaitFailed Fail []) as [s' o].
+      rewrite Eph in H. apply enters_nil; exact (proj1 (H eq_refl (conj eq_refl eq_refl))).
+  - destruct (reading (ph s)); [|apply enters_same; reflexivity]. destruct (partial s); [apply enters_same; reflexivity|].
+    unfold on_frame. destruct (ph s) eqn:Eph; try (apply enters_same; reflexivity).
+    destruct (tx =? tx0); [|apply enters_same; reflexivity].
+    pose proof (finish_summary s r (respond k)) as H. destruct (finish s r (respond k)) as [s' o]. apply enters_nil; exact (proj1 H).
+  - destruct (reading (ph s)); [|apply enters_same; reflexivity]. destruct (partial s); apply enters_same; reflexivity.
+  - destruct (reading (ph s)); [|apply enters_same; reflexivity]. destruct (partial s) as [[tx k]|]; [|apply enters_same; reflexivity].
+    unfold on_frame. cbn [ph set_partial]. destruct (ph s) eqn:Eph; try (apply enters_same; reflexivity).
+    destruct (tx =? tx0); [|apply enters_same; reflexivity].
+    pose proof (finish_summary (set_partial s None) r (respond k)) as H. destruct (finish _ r (respond k)) as [s' o]. apply enters_nil; exact (proj1 H).
+  - destruct (reading (ph s)); [|apply enters_same; reflexivity]. destruct (partial s); [apply enters_same; reflexivity|].
+    unfold on_read_error. destruct (ph s) eqn:Eph; try (apply enters_same; reflexivity).
+    + pose proof (end_session_summary s SeBadFrame) as H. cbn [from_request_err]. destruct (end_session s SeBadFrame) as [s' o]. rewrite Eph in H. apply enters_nil; exact (proj1 (H eq_refl)).
+    + pose proof (finish_summary s r (RErr ReBadFrame)) as H. destruct (finish s r _) as [s' o]. apply enters_nil; exact (proj1 H).
+  - destruct (reading (ph s)); [|apply enters_same; reflexivity].
+    unfold on_read_error. destruct (ph s) eqn:Eph; try (apply enters_same; reflexivity).
+    + pose proof (end_session_summary s SeIoError) as H. cbn [from_request_err]. destruct (end_session s SeIoError) as [s' o]. rewrite Eph in H. apply enters_nil; exact (proj1 (H eq_refl)).
+    + pose proof (finish_summary s r (RErr ReIo)) as H. destruct (finish s r _) as [s' o]. apply enters_nil; exact (proj1 H).
+  - destruct (reading (ph s)); [|apply enters_same; reflexivity].
+    unfold on_read_error. destruct (ph s) eqn:Eph; try (apply enters_same; reflexivity).
+    + pose proof (end_session_summary s SeIoError) as H. cbn [from_request_err]. destruct (end_session s SeIoError) as [s' o]. rewrite Eph in H. apply enters_nil; exact (proj1 (H eq_refl)).
+    + pose proof (finish_summary s r (RErr ReIo)) as H. destruct (finish s r _) as [s' o]. apply enters_nil; exact (proj1 H).
+  - destruct (ph s) eqn:Eph; try (apply enters_same; reflexivity).
+    + destruct (fire cfg until <=? now s); [|apply enters_same; reflexivity]. intros r0 tx0 d0 H. cbn in H. inversion H; subst. right. reflexivity.
+    + destruct (fire cfg deadline <=? now s); [|apply enters_same; reflexivity].
+      pose proof (finish_summary s r (RErr deadline_error)) as H. destruct (finish s r _) as [s' o]. apply enters_nil; exact (proj1 H).
+    + destruct (fire cfg until <=? now s); [|apply enters_same; reflexivity].
+      pose proof (loop_top_summary s) as H. destruct (loop_top s) as [s' o]. apply enters_nil; exact (proj1 H).
+  - destruct (ph s) eqn:Eph; try (pose proof (crash_summary s) as H; destruct (crash s) as [s' o]; apply enters_nil; exact (proj1 H)).
+    apply enters_same. reflexivity.
+Qed.
+
 End Laws.
 
 (* ---------- lifted to runs (all event lists) ---------- *)
@@ -352,7 +463,7 @@ Variable cfg : config.
 
 Lemma c11_one_outstanding s e r tx d : ph s = PInFlight r tx d -> wire_ids (snd (step cfg s e)) = [].
 Proof.
-  intros Eph. pose proof (step_laws cfg s e) as H. destruct (step cfg s e) as [s' o]. destruct H as (_ & _ & [H|(r' & tx' & d' & _ & _ & _ & [H|[u H]])]);
+  intros Eph. pose proof (step_laws cfg s e) as H. destruct (step cfg s e) as [s' o]. destruct H as (_ & _ & [H|(r' & tx' & d' & _ & _ & _ & [H|[u H]] & _)]);
   [exact H|rewrite Eph in H; discriminate|rewrite Eph in H; discriminate].
 Qed.
 
